@@ -1506,10 +1506,6 @@ class ContactHandler(Messenger, dbus.service.Object):
                 self._tx_tmp.total_length
             )
 
-        if self._tx_length == self._tx_tmp.total_length:
-            # Nothing more to send, just waiting on ACK
-            return False
-
         # send next segment
         flg = 0
         ext_items = []
